@@ -408,7 +408,7 @@ def b_eq_code(E, a, b):
             return False
         return mk_bool(z3.And([a.at(z3.IntVal(i)) == b.at(z3.IntVal(i)) for i in range(a.n)]))
     for x, y in ((a, b), (b, a)):
-        if isinstance(x.n, int) and x.n <= 16:
+        if isinstance(x.n, int) and x.n <= 256:
             return mk_bool(z3.And([y.len_term() == x.n] + [x.at(z3.IntVal(i)) == y.at(z3.IntVal(i)) for i in range(x.n)]))
     raise Unsupported('equality of two symbolic byte strings inside code')
 
@@ -1648,6 +1648,20 @@ def list_attr(E, v, name):
 def dict_attr(E, v, name):
     if name == 'get':
         def get(k, default=None):
+            if isinstance(k, (SBytes, SByteArray)) and lift_bytes(k).conc is None:
+                # symbolic bytes key against concrete bytes keys: decided by the path condition, key by key
+                kb = lift_bytes(k)
+                for kk in v:
+                    if not isinstance(kk, bytes):
+                        continue
+                    eq = b_eq_code(E, kb, kk)
+                    if eq is False:
+                        continue
+                    if eq is True or E.decide(eq, 'dict-bytes-key'):
+                        return v[kk]
+                return default
+            if isinstance(k, (SBytes,)) and k.conc is not None:
+                k = k.conc
             if isinstance(k, SInt):
                 for kk in v:
                     kv = kk.value if isinstance(kk, EnumMember) else kk
